@@ -1451,7 +1451,9 @@ def concat_collocations(collocations):
     for obj in collocations:
         for group, data in get_xarray_groups(obj).items():
             if group == "Collocations":
-                # Correct the indices:
+                # Correct the indices (of a copy, `data` shares its memory
+                # with the caller's dataset):
+                data["Collocations/pairs"] = data["Collocations/pairs"].copy()
                 data["Collocations/pairs"][0, :] += primary_size
                 data["Collocations/pairs"][1, :] += secondary_size
                 data = data.drop_vars("Collocations/group")
